@@ -281,6 +281,38 @@ def scenario_ogg_only(wrapper, base, work, ogg):
         return {"want": want, "got": None, "error": type(ex).__name__ + ": " + str(ex)[:120]}
 
 
+def scenario_custom_folder(wrapper, base, work):
+    """a sound the author stored under a folder of their own (`sound\\custom\\beep.wav`): listed in the sound table and
+    played without explicit duration, it gets its true length like any other"""
+    from richchk.editor.richchk.rich_chk_editor import RichChkEditor
+    from richchk.editor.richchk.rich_wav_editor import RichWavEditor
+    from richchk.io.mpq.starcraft_mpq_io import StarCraftMpqIo
+    from richchk.io.richchk.query.chk_query_util import ChkQueryUtil
+    from richchk.model.mpq.stormlib.stormlib_archive_mode import StormLibArchiveMode
+    from richchk.model.richchk.wav.rich_wav_section import RichWavSection
+
+    io = StarCraftMpqIo(wrapper)
+    snd = os.path.join(work, "beep.wav")
+    make_wav(snd, 1234)
+    m0 = os.path.join(work, "c0.scx")
+    shutil.copyfile(base, m0)
+    member = "sound\\custom\\beep.wav"
+    h = wrapper.open_archive(m0, StormLibArchiveMode.STORMLIB_WRITE_ONLY)
+    wrapper.add_file(h, snd, member, overwrite_existing=True)
+    wrapper.compact_archive(h)
+    wrapper.close_archive(h)
+    chk = io.read_chk_from_mpq(m0)
+    wav = ChkQueryUtil.find_only_rich_section_in_chk(RichWavSection, chk)
+    chk = RichChkEditor().replace_chk_section(RichWavEditor().add_wav_files([member], wav), chk)
+    chk = add_playwav(chk, member, None)
+    m1 = os.path.join(work, "c1.scx")
+    try:
+        io.save_chk_to_mpq(chk, m0, m1)
+        return {"want": 1234, "got": playwav_durations(io, m1).get(member), "error": None}
+    except Exception as ex:  # noqa: BLE001
+        return {"want": 1234, "got": None, "error": type(ex).__name__ + ": " + str(ex)[:120]}
+
+
 def scenario_sparse_wav(wrapper, base, work, free_slots):
     """a map whose sound table has free slots below used ones, then an audio import"""
     from richchk.editor.richchk.rich_chk_editor import RichChkEditor
@@ -425,6 +457,8 @@ def main():
                 res["scenario"] = scenario_stale_duration(wrapper, base, work)
             elif op == "scenario_explicit_duration":
                 res["scenario"] = scenario_explicit_duration(wrapper, base, work)
+            elif op == "scenario_custom_folder":
+                res["scenario"] = scenario_custom_folder(wrapper, base, work)
             elif op == "scenario_ogg_only":
                 res["scenario"] = scenario_ogg_only(wrapper, base, work, spec["ogg"])
             elif op == "scenario_sparse_wav":
